@@ -3,7 +3,7 @@ SPECIFICATION Spec
 CONSTANTS LgMaxK = 2
  Inputs <- Catalogue
  Items <- MCItems
- PromoteAt = 2
+ PromoteCount <- PC2
  FixedIsEmpty = FALSE
  FixedReset = TRUE
 INVARIANT ResultOK EmptyOK CountersOK UInvOK
